@@ -287,36 +287,33 @@ POSITIONS = ['table', 'schema', 'alias', 'column', 'enum', 'enum_schema', 'item'
              'prop_key_table', 'prop_key_column', 'project_key', 'index_name', 'ref_target_col']
 
 
-def ident_model(pos, name):
-    """A small model with ``name`` at one name-bearing position (everything else plain)."""
+def ident_base():
     t = A.table('t', [A.col('id'), A.col('v', ['enum', 'public', 'e'])], alias='al')
     u = A.table('u', [A.col('id'), A.col('t_id')], schema='s')
     e = A.enum('e', ['i1', 'i2'])
-    m = A.model(tables=[t, u], enums=[e], refs=[A.ref('>', [['s', 'u', 't_id']], [['public', 't', 'id']], name='r')],
-                groups=[A.group('g', [['public', 't'], ['s', 'u']])], notes=[A.sticky('n', 'x')],
-                project=A.project('p', [['k', 'v']]))
+    return A.model(tables=[t, u], enums=[e], refs=[A.ref('>', [['s', 'u', 't_id']], [['public', 't', 'id']], name='r')],
+                   groups=[A.group('g', [['public', 't'], ['s', 'u']])], notes=[A.sticky('n', 'x')],
+                   project=A.project('p', [['k', 'v']]))
+
+
+def apply_ident(m, pos, name):
+    """Put ``name`` at one name-bearing position of the base model, keeping all cross-references consistent."""
+    t, u = m['tables']
+    e = m['enums'][0]
     if pos == 'table':
         t['name'] = name
-        m['refs'][0]['col2'][0][1] = name
-        m['groups'][0]['items'][0][1] = name
     elif pos == 'schema':
         u['schema'] = name
-        m['refs'][0]['col1'][0][0] = name
-        m['groups'][0]['items'][1][0] = name
     elif pos == 'alias':
         t['alias'] = name
     elif pos == 'column':
         u['columns'][1]['name'] = name
-        m['refs'][0]['col1'][0][2] = name
     elif pos == 'ref_target_col':
         t['columns'][0]['name'] = name
-        m['refs'][0]['col2'][0][2] = name
     elif pos == 'enum':
         e['name'] = name
-        t['columns'][1]['type'] = ['enum', 'public', name]
     elif pos == 'enum_schema':
         e['schema'] = name
-        t['columns'][1]['type'] = ['enum', name, 'e']
     elif pos == 'item':
         e['items'][1]['name'] = name
     elif pos == 'group':
@@ -336,8 +333,20 @@ def ident_model(pos, name):
     elif pos == 'project_key':
         m['project']['items'] = [[name, 'v']]
     elif pos == 'index_name':
-        t['indexes'] = [A.index(['id'], name=name)]
+        t['indexes'] = [A.index([t['columns'][0]['name']], name=name)]
+    # re-derive every cross reference from the (possibly renamed) declarations
+    t['columns'][1]['type'] = ['enum', e['schema'], e['name']]
+    m['refs'][0]['col1'] = [[u['schema'], u['name'], u['columns'][1]['name']]]
+    m['refs'][0]['col2'] = [[t['schema'], t['name'], t['columns'][0]['name']]]
+    m['groups'][0]['items'] = [[t['schema'], t['name']], [u['schema'], u['name']]]
+    for i in t['indexes']:
+        i['subjects'] = [['col', t['columns'][0]['name']]]
     return m
+
+
+def ident_model(pos, name):
+    """A small model with ``name`` at one name-bearing position (everything else plain)."""
+    return apply_ident(ident_base(), pos, name)
 
 
 IDENT_EXCLUDED = {
